@@ -41,6 +41,70 @@ def slotLive (n : TracerSlots.Name) (before : Bool) (ops : List TracerSlots.Op) 
     | .clear m => if m == n then false else b
     | _ => b) before
 
+/-! #### history-based expectation for a whole script
+
+`specObs ops` says, for every position of `ops`, which observations the property allows there,
+looking only at the *history* (positions of Init/Clear/Complete), with no slot state:
+a waiter that began at `i` on `n` belongs to the *epoch* opened by the last `init n` before `i`
+(at `j`), which ends at the next `init n`/`clear n`; it obtains the first `complete n` of that
+epoch, as soon as that has happened. -/
+
+open TracerSlots in
+/-- last position `< i` whose operation touches `n`, with that operation -/
+def lastTouch (n : TracerSlots.Name) (ops : List TracerSlots.Op) (i : Nat) : Option (Nat × TracerSlots.Op) :=
+  (((ops.take i).zipIdx).filter (fun p => touches n p.1)).getLast?.map (fun p => (p.2, p.1))
+
+open TracerSlots in
+/-- first position `> j` whose operation touches `n` (or the length) -/
+def nextTouch (n : TracerSlots.Name) (ops : List TracerSlots.Op) (j : Nat) : Nat :=
+  match (ops.zipIdx.filter (fun p => p.2 > j && touches n p.1)).head? with
+  | some p => p.2
+  | none => ops.length
+
+open TracerSlots in
+/-- first `complete n t` at a position strictly between `lo` and `hi` -/
+def firstCompleteBetween (n : TracerSlots.Name) (ops : List TracerSlots.Op) (lo hi : Nat) : Option Nat :=
+  (ops.zipIdx.filterMap (fun p => if p.2 > lo && p.2 < hi then completesOn n p.1 else none)).head?
+
+open TracerSlots in
+/-- what waiter state the specification tracks: position of the pending Await's `init` epoch -/
+def specStep (ops : List TracerSlots.Op) (busy : List (Nat × TracerSlots.Name × Nat)) (r : Nat) :
+    TracerSlots.Op → List (Nat × TracerSlots.Name × Nat) × List TracerSlots.Obs
+  | .init _ | .clear _ | .complete _ _ => (busy, [.none])
+  | .await w n =>
+    match busy.lookup w with
+    | some _ => (busy, [.busy])
+    | none =>
+      match lastTouch n ops r with
+      | some (j, .init _) =>
+        match firstCompleteBetween n ops j r with
+        | some t => (busy, [.trace t])
+        | none => ((w, n, j) :: busy, [.waiting])
+      | _ => (busy, [.err])
+  | .join w | .peek w =>
+    match busy.lookup w with
+    | none => (busy, [.idle])
+    | some (n, j) =>
+      match firstCompleteBetween n ops j (min (nextTouch n ops j) r) with
+      | some t => (busy.filter (·.1 != w), [.trace t])
+      | none => (busy, [.waiting])
+  | .ctx w =>
+    match busy.lookup w with
+    | none => (busy, [.idle])
+    | some (n, j) =>
+      match firstCompleteBetween n ops j (min (nextTouch n ops j) r) with
+      | some t => (busy.filter (·.1 != w), [.trace t, .ctxErr])
+      | none => (busy.filter (·.1 != w), [.ctxErr])
+
+open TracerSlots in
+def specGo (ops : List TracerSlots.Op) : List (Nat × TracerSlots.Name × Nat) → Nat → List TracerSlots.Op → List (List TracerSlots.Obs)
+  | _, _, [] => []
+  | busy, r, o :: os =>
+    let s := specStep ops busy r o
+    s.2 :: specGo ops s.1 (r+1) os
+
+def specObs (ops : List TracerSlots.Op) : List (List TracerSlots.Obs) := specGo ops [] 0 ops
+
 /-! ### Builder -/
 open Builder in
 /-- an operation that takes the trace: a finishing event or `build` -/
